@@ -184,6 +184,11 @@ def main(tier, seed):
                 mdup.attrs = ['#[diplomat::attr(auto, namespace = "vfdup")]', '#[diplomat::abi_rename = "vfdup_{0}"]']
                 mdup.items = [dup]
                 p3.modules.append(mdup)
+        if sup.get("traits"):
+            # an unrelated trait nothing consumes, sorted first, half of the time disabled for this backend (seed C14-g: disabled traits
+            # dropped from the context after their positions had been handed out as ids): `impl Trait` parameters elsewhere must not notice
+            tattr = rng.choice(["", "#[diplomat::attr(%s, disable)]\n    " % b, "#[diplomat::attr(*, disable)]\n    ", "#[diplomat::attr(any(c, kotlin), disable)]\n    "])
+            p3.modules[0].extra_src += "    %spub trait AaUnrelatedTr {\n        fn ping(&self, x: u8) -> u8;\n    }\n" % tattr
         emit_rust.assign_abi_names(p3)
         kind, snap, s, e = gen(p3, "insert")
         if kind == "ok":
@@ -227,7 +232,7 @@ def main(tier, seed):
     chk.evaluations = stats["tool_runs"]
     chk.distinct = comparisons
     chk.rule = ("programs with 10-20 types split over two bridge modules (two thirds of them decorated with backend-conditional rename/disable attributes and abi_rename patterns at module, type, impl and method level; half of them with traits and `impl Trait` parameters where the backend supports traits, the other half spread over nested namespaces with cyclic references where the backend supports namespacing), per backend: base run vs (1) repeat runs in fresh processes, (2) random "
-                "permutations of module order and item order, (3) insertion of three unrelated types (opaque with callback / write methods, struct, enum with a callback method; sorted first or last, in an existing or a new last module) (per-type files of all other types must be "
+                "permutations of module order and item order, (3) insertion of three unrelated types (opaque with callback / write methods, struct, enum with a callback method; sorted first or last, in an existing or a new last module; where the backend has traits also an unconsumed trait sorted first, in three of four cases disabled for the backend) (per-type files of all other types must be "
                 "byte-identical; aggregate index files exempt), (4) extra non-bridge items incl. a same-named struct in a non-bridge module. "
                 "distinct_nontrivial = distinct (backend, program, comparison kind) triples actually compared.")
     chk.extra = dict(stats, programs=nprog, backends=toolrun.BACKENDS, skipped=nskip,
